@@ -76,9 +76,9 @@ claimed = {
  'C06': dict(level='proof',
    text=("Contract-based deductive proof of the topic-level scanner only (the one part of the topic store within the generator's subset): nextTopicLevel returns the bytes before the first '/' as the level and the bytes after it as the rest, "
          "never a level containing '/', rejects '#' or '+' that do not occupy a whole level (a defect found here - a wildcard followed by '$' was accepted - was fixed), accepts '#' only as the last level and refuses a leading '$'; the Manager wrappers pass requests and answers through unchanged. "
-         "NOT covered, and not claimed: the recursive trie operations (sinsert, sremove, smatch, rinsert, rremove, rmatch, matchQos, equal) - they iterate over Go maps and recurse, which the generator does not model - so the matching semantics of MQTT 4.7 itself is undecided by this check. "
+         "The recursive trie operations (sinsert, sremove, smatch, matchQos, rinsert, rremove, rmatch, allRetained) iterate over Go maps and recurse, which the generator does not model; they are covered by a BOUNDED stand-in, labelled bounded and not counted as proved: the real MemTopics is run exhaustively over filters of 1..3 levels over {a,b,+,#}, topics of 1..3 levels over {a,b}, two or three subscribers, subscribe/unsubscribe/re-subscribe, publish QoS 0..2 and retained insert/replace/clear (about 720000 cases) against the MQTT 4.7 matching relation (two defects found this way - '/#' not matching its parent level, clearing a retained message pruning its parent's - were fixed). Topics with empty levels or '$' are outside the bound. "
          "A known deviation pinned by the repository's own test (an empty first level is returned as '+') is outside the obligations."),
-   design='DESIGN.md §4 C06', technique='contracts + loop invariants over go/ssa, z3/cvc5 (govc); scanner only'),
+   design='DESIGN.md §4 C06', technique='contracts + loop invariants over go/ssa, z3/cvc5 (govc) for the scanner; bounded exhaustive stand-in for the trie'),
  'C01': dict(level='proof',
    text=("Contract-based deductive proof of the fan-out step only (core): onPublish calls every subscriber the topic store returned exactly once, in the store's order (ghost call counter, loop invariant), and at each call the message carries the QoS the store computed for that subscriber whenever that value is a valid QoS; "
          "it counts as one hand-over of exactly that message object. That the store returns exactly the matching subscriptions with min(publish QoS, granted QoS) is the trusted interface contract of the topic store (the trie is outside the generator's subset, see C06); "
